@@ -35,3 +35,11 @@ package marshal
 //@   callsite (mellium.im/xmlstream.Flusher).Flush#*
 //@     after: flushed = ret0 == nil
 //@   ensures[C05] result == nil && implements(w, xmlstream.Flusher) ==> flushed
+
+// C13/C05: the decoder handed out for a plain value reads from a buffer that
+// this call allocated and that is handed to nothing but the encoder that fills
+// it and the decoder that reads it (so a reader made earlier keeps yielding its
+// own value whatever is marshalled afterwards).
+//@ func tokenDecoder
+//@   callsite encoding/xml.NewDecoder#1
+//@     assert[C13,C05] typeof(arg0) == *bytes.Buffer && freshInCall(arg0.(*bytes.Buffer))
